@@ -9,11 +9,11 @@ git diff --quiet -- src || { echo "tree not clean after reverse"; exit 2; }
 git apply --check MUTANT/patch.diff || { echo "PATCH DOES NOT APPLY"; exit 1; }
 if [ -n "$demo" ]; then
   t=$(basename $demo .rs)
-  timeout 900 cargo test --offline --features lz4,lzma,zstd --test $t > /tmp/cm_without.log 2>&1; rc0=$?
+  timeout 900 cargo test --offline --features lz4,lzma,zstd --test $t > /tmp/cm2_without.log 2>&1; rc0=$?
 else rc0=skip; fi
 git apply MUTANT/patch.diff
-timeout 900 cargo test --offline --lib --test creator_jubako --test jubako > /tmp/cm_suite.log 2>&1; rcs=$?
+timeout 900 cargo test --offline --lib --test creator_jubako --test jubako > /tmp/cm2_suite.log 2>&1; rcs=$?
 if [ -n "$demo" ]; then
-  timeout 900 cargo test --offline --features lz4,lzma,zstd --test $t > /tmp/cm_with.log 2>&1; rc1=$?
+  timeout 900 cargo test --offline --features lz4,lzma,zstd --test $t > /tmp/cm2_with.log 2>&1; rc1=$?
 else rc1=skip; fi
-echo "demo without change rc=$rc0 (want 0); suite with change rc=$rcs (want 0) [$(grep -h 'test result' /tmp/cm_suite.log | tr '\n' ' ' | cut -c1-160)]; demo with change rc=$rc1 (want != 0)"
+echo "demo without change rc=$rc0 (want 0); suite with change rc=$rcs (want 0) [$(grep -h 'test result' /tmp/cm2_suite.log | tr '\n' ' ' | cut -c1-160)]; demo with change rc=$rc1 (want != 0)"
